@@ -29,6 +29,8 @@ type gen struct {
 	headerVariants int
 	// outOfRange counts enumeration fields given a value outside their constants.
 	outOfRange int
+	// secondOffsets counts times generated in a zone whose offset has a seconds part.
+	secondOffsets int
 }
 
 var strFragments = []string{
@@ -195,8 +197,26 @@ func (g *gen) tm() time.Time {
 	case 5:
 		t = t.In(time.FixedZone("", 5*3600+45*60))
 	case 6:
-		// an offset with seconds cannot be written as a TZD: never canonical
-		t = t.In(time.FixedZone("", 3600+17))
+		// offsets with a seconds part: RFC 3339 / XEP-0082 TZDs carry whole minutes
+		// only, so the writer has to go through UTC to keep the instant
+		g.secondOffsets++
+		switch r.Intn(4) {
+		case 0:
+			t = t.In(time.FixedZone("LMT", 19*60+32)) // Europe/Amsterdam before 1937
+		case 1:
+			t = t.In(time.FixedZone("", -(7*3600 + 52*60 + 58))) // America/Los_Angeles LMT
+		case 2:
+			t = t.In(time.FixedZone("x", 3600+17))
+		default:
+			off := r.Intn(14*3600) + 1
+			if off%60 == 0 {
+				off += 1 + r.Intn(59)
+			}
+			if r.Intn(2) == 0 {
+				off = -off
+			}
+			t = t.In(time.FixedZone("x", off))
+		}
 	default:
 		t = t.In(time.FixedZone("", (r.Intn(26*60)-12*60)*60))
 	}
@@ -436,9 +456,9 @@ func genericCanon(v reflect.Value) string {
 		if y := t.Year(); y < 0 || y > 9999 || t.UTC().Year() < 0 || t.UTC().Year() > 9999 {
 			return "time outside RFC 3339 range"
 		}
-		if _, off := t.Zone(); off%60 != 0 {
-			return "zone offset with seconds"
-		}
+		// a zone offset with a seconds part (tz-database LMT offsets, FixedZone)
+		// is NOT a reason: every format either writes UTC or documents a
+		// whole-minute TZD, and the instant must survive in both cases
 		return ""
 	case typJID, typName:
 		return ""
